@@ -183,3 +183,63 @@ Lemma w_sg_log :
                         (spawn (session_actors SESS_GUARD 4 [2; 0; 3; 1; 2]%nat 7 w_cts_run ++ w_sg_others) empty_state)))
   = [0; 0; 0;  1; 0; 0;  0; 1; 1;  2; 0; 34;  0; 2; 2;  1; 1; 2;  3; 0; 3].
 Proof. vm_compute. reflexivity. Qed.
+
+(* ---------- the run-local counter ---------- *)
+Lemma run_frames_valid_from sid : forall sites l cnt,
+  forallb is_sess (map fst sites) = true -> Forall (fun s => snd s = 1) sites ->
+  Valid l -> cnt = next_of KSession sid l -> Valid (l ++ run_frames sid cnt sites).
+Proof.
+  induction sites as [|[t k] r IH]; intros l cnt Hs Hk Hv Hc; cbn [run_frames].
+  - rewrite app_nil_r. exact Hv.
+  - cbn [map fst forallb] in Hs. apply andb_true_iff in Hs. destruct Hs as [Ht Hs].
+    inversion Hk as [|x y Hk1 Hk2]; subst x y. cbn [snd] in Hk1. subst k.
+    set (f := {| fid := 0; sid := sid; seq := cnt; ety := t; args := [] |}).
+    assert (Hfk : fkind f = KSession) by (apply is_sess_kind; exact Ht).
+    replace (l ++ f :: run_frames sid (cnt + 1) r) with ((l ++ [f]) ++ run_frames sid (cnt + 1) r)
+      by (rewrite <- app_assoc; reflexivity).
+    apply IH; [exact Hs|exact Hk2| |].
+    + apply Valid_snoc. split; [exact Hv|]. rewrite Hfk. exact Hc.
+    + unfold next_of, nlen in *. rewrite <- Hfk at 1.
+      change sid with (Frames.sid f) at 1. rewrite stream_snoc_same, app_length. cbn [length].
+      rewrite Hfk. cbn [Frames.sid f]. lia.
+Qed.
+
+(* every site increments exactly once => the run's stream is 0,1,2,.. (on a fresh stream, and appended
+   to any valid log in which the stream has `cnt` frames) *)
+Theorem run_counter_valid sid sites :
+  forallb is_sess (map fst sites) = true -> Forall (fun s => snd s = 1) sites ->
+  Valid (run_frames sid 0 sites).
+Proof.
+  intros Hs Hk. apply (run_frames_valid_from sid sites [] 0 Hs Hk Valid_nil). reflexivity.
+Qed.
+
+(* ... in particular when every dynamic emission happens at one of the static sites the extractor
+   found and all of those increment once *)
+Theorem run_counter_valid_static (static : list (N * N)) sid (run : list (etype * N)) :
+  sites_ok static = true ->
+  forallb is_sess (map fst run) = true ->
+  Forall (fun s => In (snd s) (map snd static)) run ->
+  Valid (run_frames sid 0 run).
+Proof.
+  intros Hok Hs Hin. apply run_counter_valid; [exact Hs|].
+  unfold sites_ok in Hok. apply andb_true_iff in Hok. destruct Hok as [_ Hall].
+  rewrite forallb_forall in Hall. rewrite Forall_forall in *. intros x Hx.
+  specialize (Hin x Hx). apply in_map_iff in Hin. destruct Hin as [s [Hs1 Hs2]].
+  specialize (Hall s Hs2). apply N.eqb_eq in Hall. congruence.
+Qed.
+
+(* all-ones run = the session actor of Model/ContStore.v (MSessEmit: frame at the counter, counter + 1) *)
+Lemma run_frames_seqs sid : forall ts cnt,
+  map seq (run_frames sid cnt (map (fun t => (t, 1)) ts)) = nseq cnt (length ts).
+Proof.
+  induction ts as [|t r IH]; intros cnt; cbn [map run_frames nseq length]; [reflexivity|].
+  rewrite IH. reflexivity.
+Qed.
+
+(* a site without its increment (seeded change C01-3: the provider_event frame of a request that fails
+   local validation, then the run's closing frame) *)
+Definition w_noinc_run : list (etype * N) := [(ESessionStarted, 1); (EProviderEvent, 0); (ESessionEnded, 1)].
+Lemma w_noinc_invalid : validate (run_frames 7 0 w_noinc_run) = false /\ map seq (run_frames 7 0 w_noinc_run) = [0; 1; 1].
+Proof. split; vm_compute; reflexivity. Qed.
+Lemma w_noinc_fixed_valid : validate (run_frames 7 0 [(ESessionStarted, 1); (EProviderEvent, 1); (ESessionEnded, 1)]) = true.
+Proof. vm_compute. reflexivity. Qed.
